@@ -276,12 +276,12 @@ func (bv booleanValue) ToString(b io.Writer, s px.FormatContext, g px.RDetect) {
 		f.ApplyStringFlags(b, bv.stringVal(f.IsAlt(), `Yes`, `No`), false)
 	case 'd', 'x', 'X', 'o', 'b', 'B':
 		integerValue(bv.Int()).ToString(b, px.NewFormatContext(DefaultIntegerType(), f, s.Indentation()), g)
-	case 'e', 'E', 'f', 'g', 'G', 'a', 'A':
+	case 'e', 'E', 'f', 'g', 'G':
 		floatValue(bv.Float()).ToString(b, px.NewFormatContext(DefaultFloatType(), f, s.Indentation()), g)
 	case 's', 'p':
 		f.ApplyStringFlags(b, bv.stringVal(false, `true`, `false`), false)
 	default:
-		panic(s.UnsupportedFormat(bv.PType(), `tTyYdxXobBeEfgGaAsp`, f))
+		panic(s.UnsupportedFormat(bv.PType(), `tTyYdxXobBeEfgGsp`, f))
 	}
 }
 
